@@ -7,6 +7,7 @@ package main
 
 import (
 	"encoding/json"
+	"runtime/pprof"
 	"fmt"
 	"os"
 	"strconv"
@@ -76,6 +77,11 @@ func usage() {
 
 func run(id, tier, only string) int {
 	start := time.Now()
+	if pf := os.Getenv("FV_PROFILE"); pf != "" {
+		f, _ := os.Create(pf)
+		pprof.StartCPUProfile(f)
+		defer pprof.StopCPUProfile()
+	}
 	ck := checks.Get(id)
 	if ck == nil {
 		fmt.Fprintf(os.Stderr, "no check for %s\n", id)
